@@ -381,7 +381,7 @@ func scenarios(tier string) []sched.Scenario {
 	rds := []time.Duration{time.Microsecond, 250 * time.Microsecond, time.Millisecond}
 	for _, drv := range []string{"generic", "network"} {
 		for _, st := range states {
-			for _, mode := range []dev.CloseMode{dev.CloseEOF, dev.CloseEIO, dev.CloseStaysBlocked} {
+			for _, mode := range []dev.CloseMode{dev.CloseEOF, dev.CloseEIO, dev.CloseStaysBlocked, dev.CloseEOFWithErr} {
 				for _, rd := range rds {
 					if drv == "network" && st != "exit-onclose" && st != "idle" && st != "second-seq" && tier != "thorough" {
 						continue
@@ -398,7 +398,7 @@ func scenarios(tier string) []sched.Scenario {
 	}
 	for _, v := range []string{"1.0", "1.1"} {
 		for _, st := range ncStates {
-			for _, mode := range []dev.CloseMode{dev.CloseEOF, dev.CloseEIO, dev.CloseStaysBlocked} {
+			for _, mode := range []dev.CloseMode{dev.CloseEOF, dev.CloseEIO, dev.CloseStaysBlocked, dev.CloseEOFWithErr} {
 				for _, rd := range rds {
 					if tier != "thorough" && (v == "1.0" && st != "idle" || rd == 250*time.Microsecond) {
 						continue
